@@ -3,6 +3,8 @@ Oracle: vlib.solvercases.oracle_c12 on the recorded sequence of apply_operator s
 start), criterion answers and the outcome.  Correspondence: QV.Solver.SolverCheck.check_case."""
 from __future__ import annotations
 
+from vlib import translate
+
 # An operator application that reports more than one result is outside the documented callback protocol
 # (OperatorContext.result_callback: "marks the end of the current generation after the current operation has finished")
 # and outside what C12 quantifies over (every EVQE operator reports at most one result per application).  Lead's decision:
@@ -13,6 +15,7 @@ STRICT_MULTI = False
 
 
 def run(ctx):
+    translate.check_link(ctx, "C12")
     from vlib import solvercases as sc
 
     sc.run_property(ctx, "C12", strict_multi=STRICT_MULTI, n_scripted=ctx.n(700, 8000), n_evqe=ctx.n(12, 50), enum_events=None if ctx.quick else 5)
